@@ -131,6 +131,130 @@ def gen_project(rng, idx, root, force=None):
     return {"dir": d, "cfg": cfg, "units": units, "files": files, "idx": idx}
 
 
+DEP_MOD = "pub module {name} (\n    o: output logic,\n) {{\n{body}}}\n"
+
+
+def write_dep_prj(d, name, files, deps=""):
+    os.makedirs(f"{d}/src", exist_ok=True)
+    with open(f"{d}/Veryl.toml", "w") as fh:
+        fh.write(f"[project]\nname = \"{name}\"\nversion = \"0.1.0\"\n[build]\nsources = [\"src\"]\nexclude_std = true\n"
+                 + ("[dependencies]\n" + deps if deps else ""))
+    for rel, text in files.items():
+        os.makedirs(os.path.dirname(f"{d}/{rel}"), exist_ok=True)
+        with open(f"{d}/{rel}", "w") as fh:
+            fh.write(text)
+
+
+def git(d, args, scratch):
+    e = cli_env(scratch)
+    e.update({"GIT_AUTHOR_NAME": "c25", "GIT_AUTHOR_EMAIL": "c25@localhost", "GIT_COMMITTER_NAME": "c25",
+              "GIT_COMMITTER_EMAIL": "c25@localhost", "GIT_CONFIG_NOSYSTEM": "1", "GIT_CONFIG_GLOBAL": "/dev/null"})
+    rc, out = sh(["git"] + args, cwd=d, env=e)
+    if rc != 0:
+        raise RuntimeError(f"git {args}: {out}")
+    return out.strip()
+
+
+def gen_dep_project(idx, root, variant, scratch, filelist="absolute"):
+    """Projects WITH dependencies (`Lockfile::paths`: outputs under dependencies/<lock name>/…).
+    `same-name`: two path dependencies `x`, `y` whose own `[project] name` is `common` both;
+    `diamond`: path dependencies `a`, `b` that both depend on `common` from one local git repository, at
+    different exact versions (two checkouts of one project name: locks `common`, `common_0`)."""
+    base = f"{root}/p{idx}"
+    shutil.rmtree(base, ignore_errors=True)
+    main = f"{base}/main"
+    top_insts, deps_toml, ndep_files = "", "", 0
+    if variant == "same-name":
+        for k, (dep, mod) in enumerate((("x", "ModX"), ("y", "ModY"))):
+            write_dep_prj(f"{base}/dep{dep}", "common",
+                          {"src/m.veryl": DEP_MOD.format(name=mod, body=f"    assign o = {k};\n"),
+                           "src/sub/n.veryl": DEP_MOD.format(name=mod + "Sub", body=f"    assign o = {k};\n")})
+            deps_toml += f"{dep} = {{path = \"../dep{dep}\"}}\n"
+            top_insts += (f"    var w{k}: logic;\n    inst u{k}: {dep}::{mod} (\n        o: w{k},\n    );\n"
+                          f"    var v{k}: logic;\n    inst s{k}: {dep}::{mod}Sub (\n        o: v{k},\n    );\n")
+            ndep_files += 2
+    else:
+        repo = f"{base}/repo"
+        os.makedirs(repo)
+        git(repo, ["init", "-q", "-b", "main"], scratch)
+        pub = ""
+        for ver, val in (("0.1.0", 0), ("0.2.0", 1)):
+            write_dep_prj(repo, "common", {"src/m.veryl": DEP_MOD.format(name="ModC", body=f"    assign o = {val};\n")})
+            with open(f"{repo}/Veryl.toml") as fh:
+                t = fh.read()
+            with open(f"{repo}/Veryl.toml", "w") as fh:
+                fh.write(t.replace('version = "0.1.0"', f'version = "{ver}"'))
+            git(repo, ["add", "-A"], scratch)
+            git(repo, ["commit", "-q", "-m", f"v{ver}"], scratch)
+            rev = git(repo, ["rev-parse", "HEAD"], scratch)
+            pub += f"[[releases]]\nversion = \"{ver}\"\nrevision = \"{rev}\"\n"
+            with open(f"{repo}/Veryl.pub", "w") as fh:
+                fh.write(pub)
+            git(repo, ["add", "-A"], scratch)
+            git(repo, ["commit", "-q", "-m", f"publish {ver}"], scratch)
+        for k, (dep, mod, ver) in enumerate((("a", "ModA", "0.1.0"), ("b", "ModB", "0.2.0"))):
+            write_dep_prj(f"{base}/dep{dep}", f"p{dep}",
+                          {"src/m.veryl": DEP_MOD.format(name=mod, body="    inst u: common::ModC (\n        o,\n    );\n")},
+                          deps=f"common = {{git = \"{repo}\", version = \"={ver}\"}}\n")
+            deps_toml += f"{dep} = {{path = \"../dep{dep}\"}}\n"
+            top_insts += f"    var w{k}: logic;\n    inst u{k}: {dep}::{mod} (\n        o: w{k},\n    );\n"
+            ndep_files += 2           # the dependency's file and its own checkout of `common`
+    os.makedirs(f"{main}/src")
+    with open(f"{main}/src/top.veryl", "w") as fh:
+        fh.write(f"module Top (\n    o: output logic,\n) {{\n{top_insts}    assign o = w0 ^ w1;\n}}\n")
+    with open(f"{main}/Veryl.toml", "w") as fh:
+        fh.write("[project]\nname = \"prj\"\nversion = \"0.1.0\"\n[build]\nsources = [\"src\"]\n"
+                 "target = {type = \"directory\", path = \"target\"}\n"
+                 f"filelist_type = \"{filelist}\"\nexclude_std = true\n[dependencies]\n{deps_toml}")
+    return {"dir": main, "base": base, "idx": idx, "variant": variant, "ndep_files": ndep_files,
+            "cfg": {"target": "directory:target", "map": "target", "filelist": filelist, "std": False}}
+
+
+def describe_dep(prj):
+    files = {}
+    for dp, dn, fn in os.walk(prj["base"]):
+        if any(x in dp for x in ("/.git", "/.build", "/target", "/dependencies")):
+            continue
+        for x in fn:
+            if x.endswith((".veryl", ".toml", ".pub")):
+                files[os.path.relpath(os.path.join(dp, x), prj["base"])] = open(os.path.join(dp, x)).read()
+    return {"files": files, "replay": "write the files (git repository: one commit per version, Veryl.pub lists them), run "
+            "`veryl build` in main/ and look at dependencies/ and prj.f"}
+
+
+def check_dep_project(ctx, prj, stats):
+    """Oracle for dependency outputs: one output per dependency source file (no two sources share a
+    path), every one of them listed, no filelist line twice."""
+    tag = f"c25: p{prj['idx']} ({prj['variant']} dependencies)"
+    if prj["rc"] != 0:
+        stats["dep_build_failed"] += 1
+        ctx.violation(f"{tag}: does not build: {prj['log'][-300:]}", {"kind": "build-failed", **describe_dep(prj), "log": prj["log"]},
+                      no_input=True, kind="model!=impl")
+        return
+    listed = read_filelist(prj) or []
+    ctx.cov["evaluations"] += 1
+    stats[f"dep_projects_{prj['variant']}"] += 1
+    emitted = []
+    for dp, dn, fn in os.walk(f"{prj['dir']}/dependencies"):
+        emitted += [os.path.normpath(f"{dp}/{x}") for x in fn if x.endswith(".sv")]
+    body = {"kind": "impl!=oracle", **describe_dep(prj), "filelist": listed, "dependency_outputs": sorted(emitted)}
+    if len(emitted) != prj["ndep_files"]:
+        ctx.violation(f"{tag}: {prj['ndep_files']} dependency source files but {len(emitted)} outputs under dependencies/: "
+                      f"{[os.path.relpath(e, prj['dir']) for e in sorted(emitted)]}", body, kind="impl!=oracle")
+    if len(set(listed)) != len(listed):
+        ctx.violation(f"{tag}: a file is listed twice: {[os.path.relpath(l, prj['dir']) for l in listed]}", body, kind="impl!=oracle")
+    for e in sorted(emitted):
+        if e not in listed:
+            ctx.violation(f"{tag}: emitted dependency file not in the filelist: {os.path.relpath(e, prj['dir'])}", body, kind="impl!=oracle")
+    for l in listed:
+        if not os.path.exists(l):
+            ctx.violation(f"{tag}: listed file does not exist: {l}", body, kind="impl!=oracle")
+    # the top module references every dependency: its output comes last
+    if listed and os.path.basename(listed[-1]) != "top.sv":
+        ctx.violation(f"{tag}: top.sv is not listed after the dependencies it references: "
+                      f"{[os.path.relpath(l, prj['dir']) for l in listed]}", body, kind="impl!=oracle")
+
+
 def dst_of(prj, f):
     tk, _, tp = prj["cfg"]["target"].partition(":")
     if tk == "source":
@@ -401,8 +525,12 @@ def run(ctx):
             with open(f"{c['dir']}/src/{f['rel']}.veryl", "w") as fh:
                 fh.write("".join(unit_text(c["units"], i) for i in f["units"]))
         prjs.append(c)
+        dprjs = [gen_dep_project(nprj + 10, scratch, "same-name", scratch, "absolute"),
+                 gen_dep_project(nprj + 11, scratch, "same-name", scratch, "flgen"),
+                 gen_dep_project(nprj + 12, scratch, "diamond", scratch, "relative")]
         with concurrent.futures.ThreadPoolExecutor(max_workers=8) as ex:
             prjs = list(ex.map(lambda p: build(p, scratch), prjs))
+            dprjs = list(ex.map(lambda p: build(p, scratch), dprjs))
         stats = {}
         class D(dict):
             def __missing__(self, k):
@@ -410,6 +538,8 @@ def run(ctx):
         stats = D()
         for p in prjs:
             check_project(ctx, p, stats)
+        for p in dprjs:
+            check_dep_project(ctx, p, stats)
         # correspondence of the sort: real toposort/components (in process) → model → CLI filelist
         good = [p for p in prjs if p["rc"] == 0 and not p["cfg"]["target"].startswith("bundle") and os.path.exists(p.get("filelist_path", "/x"))]
         with open(f"{ctx.run_dir}/projects.txt", "w") as fh:
